@@ -1,10 +1,177 @@
 import CueVerif.Driver.Proto
+import CueVerif.Spec.Modzip
 namespace CueVerif.Driver.C15
-open CueVerif CueVerif.Driver
+open CueVerif CueVerif.Driver CueVerif.Modzip
 
-/-- protocol handler for C15: words of one op line (after the property id) → answer -/
+/-! Line protocol for C15.  A `uni` word carries the unicode parameters for the non-ASCII
+runes occurring in the case: `-` or `rune.isLetter.fold,…` (decimal). -/
+
+def parseUni (s : String) : Option Uni :=
+  if s == "-" then some ⟨fun _ => false, fun r => r⟩ else do
+    let tbl ← (s.splitOn ",").mapM fun w =>
+      match w.splitOn "." with
+      | [a, b, c] => do
+        let r ← a.toNat?; let l ← b.toNat?; let f ← c.toNat?
+        pure (r, l, f)
+      | _ => none
+    let find (r : Nat) : Option (Nat × Nat × Nat) := tbl.find? (fun e => e.1 == r)
+    pure ⟨fun r => match find r with | some e => e.2.1 == 1 | none => false,
+          fun r => match find r with | some e => e.2.2 | none => r⟩
+
+def pathErrStr : PathErr → String
+  | .invalidUTF8 => "utf8" | .empty => "empty" | .doubleSlash => "dslash"
+  | .trailingSlash => "tslash" | .emptyElem => "emptyelem" | .dots => "dots"
+  | .trailingDot => "tdot" | .invalidChar => "char" | .windows => "windows"
+
+def whyStr : Why → String
+  | .lstat => "lstat" | .notClean => "notclean" | .notRelative => "notrel"
+  | .vendored => "vendored" | .submodule => "submodule" | .hgArchival => "hg"
+  | .localModule => "localmodule" | .path e => "path-" ++ pathErrStr e
+  | .cueModCase => "cuemodcase" | .cueModuleCase => "cuemodulecase"
+  | .collCase => "collcase" | .collFileDir => "collfiledir" | .collDup => "colldup"
+  | .symlink => "symlink" | .notRegular => "notregular" | .cueModSize => "cuemodsize"
+  | .licenseSize => "licensesize" | .cueModNotRoot => "cuemodnotroot" | .cueModNotDir => "cuemodnotdir"
+
+def commaNats (xs : List Nat) : String :=
+  if xs.isEmpty then "-" else ",".intercalate (xs.map toString)
+
+def hexList (xs : List Str) : String :=
+  if xs.isEmpty then "." else ",".intercalate (xs.map hex)
+
+def showChecked (cf : Checked) : String :=
+  s!"V={hexList cf.valid};O={hexList (cf.omitted.map (·.1))};I={hexList (cf.invalid.map (·.1))};S={boolStr cf.sizeError};N={boolStr cf.noMod}"
+
+def showWhy (cf : Checked) : String :=
+  let f (xs : List (Str × Why)) : String :=
+    if xs.isEmpty then "." else ",".intercalate (xs.map fun (p, w) => hex p ++ ":" ++ whyStr w)
+  s!"O={f cf.omitted};I={f cf.invalid}"
+
+def parseKind : String → Option FKind
+  | "f" => some .regular | "d" => some .dir | "l" => some .symlink
+  | "o" => some .other | "e" => some .lstatErr | _ => none
+
+/-- `hexpath,kind,size` -/
+def parseFEnt (w : String) : Option FEnt :=
+  match w.splitOn "," with
+  | [p, k, s] => do
+    let p ← unhex p; let k ← parseKind k; let s ← parseInt? s
+    pure ⟨p, k, s⟩
+  | _ => none
+
+/-- `hexpath,kind,size,contentLen` -/
+def parseSrc (w : String) : Option SrcFile :=
+  match w.splitOn "," with
+  | [p, k, s, n] => do
+    let p ← unhex p; let k ← parseKind k; let s ← parseInt? s; let n ← n.toNat?
+    pure ⟨⟨p, k, s⟩, List.replicate n 0⟩
+  | _ => none
+
+/-- `hexname,declared[,openErr,dataLen,streamErr]` -/
+def parseZEnt (w : String) : Option ZEnt :=
+  match w.splitOn "," with
+  | [p, d] => do
+    let p ← unhex p; let d ← d.toNat?
+    pure { name := p, declared := d }
+  | [p, d, oe, n, se] => do
+    let p ← unhex p; let d ← d.toNat?; let n ← n.toNat?
+    pure { name := p, declared := d, openErr := oe == "1", data := List.replicate n 0, streamErr := se == "1" }
+  | _ => none
+
+def insertSorted (x : String) : List String → List String
+  | [] => [x]
+  | y :: ys => if x ≤ y then x :: y :: ys else y :: insertSorted x ys
+
+def sortStrs (xs : List String) : List String := xs.foldr insertSorted []
+
+def relStr (rel : List Str) : String := hex (joinSlash rel)
+
+/-- the nodes of a file system, canonically: files and directories strictly under `dir`
+(relative, sorted) and the number of other nodes apart from `dir` and its ancestors -/
+def showFS (fs : FS) (dir : Path) : String :=
+  let keys := (fs.map (·.1)).eraseDups
+  let under := keys.filter fun q => dir.isPrefixOf q && q.length > dir.length
+  let files := under.filterMap fun q =>
+    match fs.get q with
+    | some (.file c) => some s!"{relStr (q.drop dir.length)}:{c.length}"
+    | _ => none
+  let dirs := under.filterMap fun q =>
+    match fs.get q with
+    | some .dir => some (relStr (q.drop dir.length))
+    | _ => none
+  let outside := keys.filter fun q => !(dir.isPrefixOf q && q.length > dir.length) && !(q.isPrefixOf dir)
+  let j (xs : List String) : String := if xs.isEmpty then "." else ",".intercalate (sortStrs xs)
+  s!"files={j files} dirs={j dirs} outside={outside.length}"
+
+def targetDir : Path := [[84]]     -- "/T"
+
 def handle (ws : List String) : String :=
   match ws with
+  | ["fnok", u, r] =>
+    match parseUni u, r.toNat? with
+    | some U, some r => boolStr (fileNameOK U.isLetter r)
+    | _, _ => "bad-op"
+  | ["runes", s] =>
+    match unhex s with
+    | some s => s!"{boolStr (validUTF8 s)} {commaNats (runes s)}"
+    | none => "bad-op"
+  | ["clean", s] =>
+    match unhex s with
+    | some s => hex (pathClean s)
+    | none => "bad-op"
+  | ["dir", s] =>
+    match unhex s with
+    | some s => hex (pathDir s)
+    | none => "bad-op"
+  | ["eqfold", u, a, b] =>
+    match parseUni u, unhex a, unhex b with
+    | some U, some a, some b => boolStr (equalFold U a b)
+    | _, _, _ => "bad-op"
+  | ["checkpath", u, s] =>
+    match parseUni u, unhex s with
+    | some U, some s => if (checkFilePath U s).isNone then "ok" else "err"
+    | _, _ => "bad-op"
+  | ["checkpathwhy", u, s] =>
+    match parseUni u, unhex s with
+    | some U, some s =>
+      match checkFilePath U s with
+      | none => "ok"
+      | some e => pathErrStr e
+    | _, _ => "bad-op"
+  | "checkfiles" :: u :: ents =>
+    match parseUni u, ents.mapM parseFEnt with
+    | some U, some fs => showChecked (checkFiles U fs).1
+    | _, _ => "bad-op"
+  | "checkfileswhy" :: u :: ents =>
+    match parseUni u, ents.mapM parseFEnt with
+    | some U, some fs => showWhy (checkFiles U fs).1
+    | _, _ => "bad-op"
+  | "checkzip" :: u :: zs :: ents =>
+    match parseUni u, zs.toNat?, ents.mapM parseZEnt with
+    | some U, some zs, some z => showChecked (checkZip U zs z)
+    | _, _, _ => "bad-op"
+  | "checkzipwhy" :: u :: zs :: ents =>
+    match parseUni u, zs.toNat?, ents.mapM parseZEnt with
+    | some U, some zs, some z => showWhy (checkZip U zs z)
+    | _, _, _ => "bad-op"
+  | "create" :: u :: ents =>
+    match parseUni u, ents.mapM parseSrc with
+    | some U, some fs =>
+      match create U fs with
+      | none => "fail"
+      | some z => "ok " ++ (if z.isEmpty then "." else ",".intercalate (z.map fun e => s!"{hex e.name}:{e.declared}"))
+    | _, _ => "bad-op"
+  | "unzip" :: u :: zs :: ents =>
+    match parseUni u, zs.toNat?, ents.mapM parseZEnt with
+    | some U, some zs, some z =>
+      let r := unzip U [] targetDir zs z
+      (if r.2 then "ok " else "fail ") ++ showFS r.1 targetDir
+    | _, _, _ => "bad-op"
+  | ["escape", s] =>
+    match unhex s with
+    | some s => match escapeString s with
+      | some e => "ok " ++ hex e
+      | none => "err"
+    | none => "bad-op"
   | _ => "bad-op"
 
 end CueVerif.Driver.C15
